@@ -22,6 +22,7 @@ import (
 	"strings"
 
 	"github.com/openconfig/gnmi/zz_verif/vh"
+	"google.golang.org/grpc/connectivity"
 )
 
 // Case is what is written to cases_k.json and read back for replay.
@@ -83,6 +84,11 @@ func (c *ctl) choices(j Job) []Ev {
 			out = append(out, Ev{K: "dial", I: i, OK: true}, Ev{K: "dial", I: i, OK: true, Slow: true}, Ev{K: "dial", I: i, OK: false})
 		}
 	}
+	for h := 0; h < next; h++ {
+		if cc, ok := c.handles[h]; ok && !c.broken[h] && c.bals[h] != nil && cc.GetState() != connectivity.Shutdown {
+			out = append(out, Ev{K: "break", I: h})
+		}
+	}
 	if c.parked >= 0 {
 		out = append(out, Ev{K: "closego", I: c.parked})
 		for i := 0; i < next; i++ {
@@ -135,6 +141,8 @@ func category(e Ev, c *ctl) (string, int) {
 		return "closego", 3
 	case "again":
 		return "again", 4
+	case "break":
+		return "break", 2
 	case "failgo":
 		return "failgo", 5
 	case "release":
@@ -360,6 +368,8 @@ func evTerm(e Ev) string {
 		return "XCloseGo " + vh.Nat(e.I)
 	case "again":
 		return "XAgain " + vh.Nat(e.I)
+	case "break":
+		return "XBreak " + vh.Nat(e.I)
 	}
 	panic("evTerm " + e.K)
 }
